@@ -171,17 +171,31 @@ type cellSource struct {
 	contSeen bool
 }
 
+// rawMenu is the menu for a read made outside any announced bounded draw (the
+// implementation consumes a raw 32-bit word): small values, every single-bit
+// word, all ones and a few mixed patterns. It cannot decide uniformity (that
+// would take 2^32 alternatives) - cells containing such reads are reported as
+// not decided for distribution verdicts - but it lets the structural and
+// coverage oracles see every bit position move.
+var rawMenu = func() []uint32 {
+	m := []uint32{0, 1, 2, 3, 4, 5, 6, 7}
+	for k := uint(3); k < 32; k++ {
+		m = append(m, 1<<k)
+	}
+	return append(m, 0xffffffff, 0x80000001, 0x55555555, 0xaaaaaaaa, 0x0000ffff, 0xffff0000)
+}()
+
 func (s *cellSource) NextWord(bound uint32, announced, cont bool) (uint32, error) {
 	if s.ch.PastCut() {
 		s.t.AbortNow()
 	}
-	n := bound
 	if !announced {
-		n = s.fallback
-		if n == 0 {
-			n = 2
-		}
+		k := s.ch.Choose(len(rawMenu))
+		s.bounds = append(s.bounds, uint32(len(rawMenu)))
+		s.outs = append(s.outs, uint32(k))
+		return rawMenu[k], nil
 	}
+	n := bound
 	if cont {
 		s.contSeen = true
 	}
@@ -198,9 +212,6 @@ func (s *cellSource) NextWord(bound uint32, announced, cont bool) (uint32, error
 	k := uint32(s.ch.Choose(int(m)))
 	s.bounds = append(s.bounds, n)
 	s.outs = append(s.outs, k)
-	if !announced {
-		return k, nil
-	}
 	w, ok := cal.Rep(n, k)
 	if !ok {
 		s.uncal = true
